@@ -81,6 +81,14 @@ CHECKS = {
         note="trusted: the mutator catalogue (checked against dir() of the live tree; unknown methods are reported inconclusive); builtins that call back may legitimately have finished iterating; one open known finding (error exit never releases) keyed on its exact signature",
         technique="runtime model monitor (lock model) over an exhaustively enumerated scenario space",
         ref="DESIGN.md section 3 C12"),
+    "C14": dict(
+        engine="svh",
+        text="The same batch of files (generated successful and failing programs, misspelled identifiers for did-you-mean suggestions, identity-sensitive templates printing functions/records/enums/partials/bound methods, dir(), mixed-key dicts and sets, hash(), json) "
+             "is executed in K child processes differing in ASLR (setarch -R), seeded allocation / junk-heap noise before the batch, main vs spawned thread, batch order and per-process hash seeds; complete transcripts "
+             "(prints, values, full error renderings with suggestions and call stacks, and - in typecheck mode - diagnostics, type map and lint output) are compared byte for byte with the reference child. Held on the files and children executed.",
+        note="trusted: process-level variation as the source of layout/seed diversity; profiling and timing data are not part of the transcript",
+        technique="cross-process transcript equality monitor under layout/seed/thread/order variation",
+        ref="DESIGN.md section 3 C14"),
     "C15": dict(
         engine="svh",
         text="Limit model over measured quantities: (depth) 17 recursion shapes (direct, mutual, lambdas, comprehensions, sorted/map callbacks, partial, struct fields, kwargs/*args, inlinable wrappers, frozen defs) x limits {2,3,10,50,200(,1000)} x depths around each limit: "
